@@ -165,6 +165,15 @@ def apply_differential(R, ctx, binary, n):
     R.add_cases(len(obs), pos, samples=obs[1:4])
     R.suites.append(dict(name="apply", lines=len(obs), publishing=pos, refused_gaps=refused, fully_overlapping=overlap,
                          mismatches=len(d["mismatches"]), driver_s=round(d["seconds"], 1)))
+    if len(obs) < len(lines):
+        # the harness process died while running lines[len(obs)] (a panic inside entriesToApply/publishEntries)
+        at = len(obs)
+        start = max(i for i in range(at + 1) if lines[i].startswith("N "))
+        R.violation("apply-crash-" + core.sha(lines[at]), dict(
+            kind="impl-violates-spec", engine="apply", lines=lines[start:at + 1], summary="the apply pipeline crashed on %r after %r: %s" % (
+                lines[at], lines[start:at][-3:], se[-400:]),
+            explanation="entriesToApply/publishEntries panicked on a Ready batch that satisfies etcd's contract (first index between 1 and applied+1)"))
+        return False
     for mm in (d["mismatches"] + d["unknown"])[:1]:
         try:
             lineno = int(mm.split()[1])
@@ -227,11 +236,14 @@ def reap(scratch):
     return killed
 
 
-def run_engine(binary, server, scratch, seed, scenarios, timeout):
-    """one harness process running the scenarios one after the other; returns the parsed reports"""
+def run_engine(binary, server, scratch, seed, scenarios, timeout, slot=0):
+    """one harness process running the scenarios one after the other; returns the parsed reports.  slot: index among the harness
+    processes this check runs at the same time (each gets its own block of 200 loopback ports below the ephemeral range)"""
     os.makedirs(scratch, exist_ok=True)
     args = [binary, "cluster", server, scratch, str(seed)] + [json.dumps(s) for s in scenarios]
-    p = subprocess.Popen(args, stdout=subprocess.PIPE, stderr=subprocess.PIPE, env=core.goenv(), start_new_session=True)
+    env = core.goenv()
+    env["VERIF_PORT_BASE"] = str(10000 + ((os.getpid() * 8 + slot) % 100) * 200)
+    p = subprocess.Popen(args, stdout=subprocess.PIPE, stderr=subprocess.PIPE, env=env, start_new_session=True)
     try:
         so, se = p.communicate(timeout=timeout)
     except subprocess.TimeoutExpired:
@@ -266,6 +278,9 @@ WORK_ALL = ["str", "ctr", "list", "set", "ledger"]
 
 def scenario(name, nodes, clients, load_ms, faults, snap=0, classes=None, **kw):
     d = dict(name=name, nodes=nodes, clients=clients, load_ms=load_ms, snapcount=snap, classes=classes or WORK_ALL, faults=faults)
+    # bound the history (porcupine must finish) and pace the clients so that the load spans the fault schedule
+    d["max_ops"] = 9000 // clients
+    d["think_ms"] = 4 if clients <= 8 else 10
     d.update(kw)
     return d
 
@@ -318,9 +333,10 @@ DEMOS = {
     "member-url-lost-after-compaction": dict(name="known-member-url", nodes=3, snapcount=20, demo="memberurl"),
 }
 # repaired defects: the repro must now AGREE (a regression is a violation)
-REPAIRED = [dict(name="repaired-list-snapshot", nodes=3, snapcount=20, demo="listsnap"),
-            dict(name="repaired-snapshot-restart", nodes=3, snapcount=20, demo="snaprestart"),
-            dict(name="repaired-snapshot-lagging-follower", nodes=3, snapcount=20, demo="snaplag")]
+REPAIRED = {"C08": [dict(name="repaired-list-snapshot", nodes=3, snapcount=20, demo="listsnap"),
+                    dict(name="repaired-snapshot-restart", nodes=3, snapcount=20, demo="snaprestart"),
+                    dict(name="repaired-snapshot-lagging-follower", nodes=3, snapcount=20, demo="snaplag")],
+            "C07": [dict(name="repaired-second-membership-change", nodes=3, demo="joint")]}
 
 EXPLAIN = {
     "start-failed": "the cluster (or a node) could not be started or did not serve requests: the exploration did not run, which is a failed obligation, not a pass",
@@ -355,7 +371,7 @@ def run_cluster(R, ctx, prop, binary, known_sigs, demo_props):
                 R.violation("server-build", dict(kind="tie-broken", summary="the server does not build: " + (err or "")[-800:]), found_input=False)
                 return
             t0 = time.time()
-            side = [dict(d) for d in REPAIRED] if prop == "C08" else []
+            side = [dict(d) for d in REPAIRED.get(prop, [])]
             side += [dict(DEMOS[s]) for s in demo_props if s in DEMOS]
             jobs = []
             with concurrent.futures.ThreadPoolExecutor(max_workers=4) as ex:
@@ -363,7 +379,7 @@ def run_cluster(R, ctx, prop, binary, known_sigs, demo_props):
                 main_f = ex.submit(run_engine, binary, server, os.path.join(wd_l, "main"), R.seed * 1000, scen,
                                    60 + sum(s["load_ms"] / 1000.0 + 90 for s in scen))
                 for i, d in enumerate(side):
-                    jobs.append((d, ex.submit(run_engine, binary, server, os.path.join(wd_l, "side%d" % i), R.seed * 1000 + 500 + i, [d], 180)))
+                    jobs.append((d, ex.submit(run_engine, binary, server, os.path.join(wd_l, "side%d" % i), R.seed * 1000 + 500 + i, [d], 180, i + 1)))
                 main = main_f.result()
                 side_reports = [(d, f.result()[0]) for d, f in jobs]
             R.extra["cluster_wall_s"] = round(time.time() - t0, 1)
@@ -436,7 +452,7 @@ def run_cluster(R, ctx, prop, binary, known_sigs, demo_props):
             R.add_cases(1, 1 if ok else 0)
             if not ok:
                 R.violation("cluster-" + d["name"], dict(kind="impl-violates-spec", engine="cluster", scenario=d, summary="%s: %s" % (res, detail[:1500]),
-                                                        report=r, explanation="a defect that was repaired is back: " + EXPLAIN.get("lost-write", "")))
+                                                        report=r, explanation="a defect that was repaired is back (see the fixed: lines of this property in known_findings.txt)"))
     return main
 
 
